@@ -15,6 +15,41 @@
 3. Python compares step by step with the exported expectation; the whole op log, plus long random histories
    that TLC did not produce, is validated by TLC against spec/TestifyMockTrace.tla (contract acceptance).
    Verdicts come from TLC's judgement of real replies; the Python comparison must agree (self-consistency).
+
+COVERAGE TABLE (property clause / quantifier dimension -> where it is explored -> what stays a single point or absent)
+
+  methods: arity, kinds      -> TestifyMockMC classes: arity 0..3 (+variadic); kinds string int bool struct | ptr slice
+                                named-slice map func chan named-iface any error; generic I[K comparable, V any]
+                                (K, V in parameters, variadics and results); 1..2 methods per mock (same signature);
+                                shared-file layouts add never-called methods of OTHER shapes before and after.
+                                ABSENT: arity > 3, types of third packages / replace-type (C13), arrays, named func
+                                types, embedded interfaces, in-package mocks (qualifier logic is C01/C02), >2 methods.
+  parameter / result names   -> template-sensitive names that compile today (ok ret run args returnFunc _a0 mock m _m _c
+                                variadicArgs i a _ Run Return RunAndReturn Call On); named results (ok, run).
+                                ABSENT: names that do not compile (C01).
+  values incl. nil/zero      -> V0 nil/zero everywhere, V1/V2 distinct PER POSITION, V3 nil look-alikes (typed nil pointer in
+                                an interface-kind value, empty non-nil slice/map) as arguments, variadic... (V0 elements),
+                                results; untyped nil for EVERY nillable kind through the raw Call.Return (rawret).
+                                SINGLE POINT: V3 only in the all-positions vector; no NaN / uncomparable map keys.
+  variadic arguments         -> none / one nil-or-zero element / three elements; absent vs empty vs nil slice spelling;
+                                element kinds string int ptr any (+generic V); registration by spread from one reused,
+                                overwritten buffer.  ABSENT: a slice passed as ONE element of ...interface{}.
+  setup styles               -> Return, raw Call.Return, Run+Return, Run only, nothing, RunAndReturn, Return(whole
+                                function), Return(slice-form function; contract lenient), Return(per-result providers),
+                                Return(value, providers...) mixed.  ABSENT: re-configuring one expectation (Return twice),
+                                Maybe/Unset/NotBefore/After/WaitUntil/Panic, matchers other than Anything/equal value.
+  unroll-variadic settings   -> true / false / unset at interface level, alone in a file and interleaved in shared files in both
+                                name orders.  ABSENT: the setting inherited from package / top level (C08).
+  histories                  -> single: 1 full-alphabet expectation x <= 2 calls; pair: 2 plain expectations (Once) x <= 3
+                                calls, registration after calls, exhaustion then the next expectation, 2 methods interleaved;
+                                multi: other instances of the mock type on the same TestingT (created before / after, clean /
+                                holding an unmet expectation); the test's own Errorf and an unexpected call before cleanup;
+                                random histories <= 14 (25) ops with Times(2,3), <= 3 (4) expectations.
+                                SINGLE POINT: Times(n>1) exhaustive only in thorough/wide; ABSENT: calls after cleanup,
+                                re-entrant calls from callbacks, several goroutines (C05), mocks of DIFFERENT types on one T.
+  no match / no return       -> failnow (Errorf > 0, no return) / panic naming exactly the called method (2 methods).
+  cleanup                    -> yes / no / either (testify's equal-arguments shortcut left open), independent of Failed().
+  TestingT surface           -> the testing.TB methods; ABSENT: a TestingT WITHOUT the optional methods (Failed, Name ...).
 """
 import json
 import os
@@ -524,6 +559,12 @@ def run_driver(ctx, drv, cases, tag):
     (d / "cases.json").write_text(json.dumps(inp))
     try:
         p = subprocess.run([str(drv), str(d / "cases.json"), str(d / "log.ndjson")], capture_output=True, text=True, timeout=900)
+        if p.returncode != 0 and "fatal error: concurrent map" in p.stderr:
+            # the driver replays independent cases on several goroutines; package-level state in GENERATED code is not
+            # this property's business (C05): replay sequentially instead
+            ctx.note("generated code has unsynchronised package-level state (concurrent map access): replayed sequentially")
+            p = subprocess.run([str(drv), str(d / "cases.json"), str(d / "log.ndjson")], capture_output=True, text=True,
+                               timeout=1800, env=dict(os.environ, C03_SEQUENTIAL="1"))
     except subprocess.TimeoutExpired:
         raise MachineryError("the replay driver hung (timeout)")
     if p.returncode != 0:
@@ -798,7 +839,7 @@ def process_batch(ctx, st, cases, tag):
     else:
         bad_cases = {ci for ci, _ in py_bad}
         chosen = [ci for ci, c in enumerate(allc) if c.get("random") or ci in bad_cases
-                  or ctx.rng.random() < (0.05 if c.get("layout") else 0.2)]
+                  or ctx.rng.random() < (0.03 if c.get("layout") else 0.12)]
     sub = [allc[ci] for ci in chosen]
     evs = trace_events(sub, [per[ci] for ci in chosen], byid)
     for e in evs:
@@ -865,7 +906,7 @@ def process_batch(ctx, st, cases, tag):
 def run(ctx):
     thorough = ctx.thorough()
     ctx.timing = {}
-    pool = ThreadPoolExecutor(max_workers=10)
+    pool = ThreadPoolExecutor(max_workers=12)
     # ------------------------------------------------------------ 0. the signature classes (from the spec)
     base = "ThoroughClasses" if thorough else "QuickClasses"
     r0 = run_tlc(ctx, "classes", "TestifyMockMC", cfg_text("TestifyMock_quick.cfg", Classes="<- " + base, MaxExp="= 0", MaxCalls="= 0"), timeout=120)
@@ -887,7 +928,7 @@ def run(ctx):
     t_tlc = time.time()
     ids = sorted(byid)
     if not thorough:
-        for gi, g in enumerate(split(ids, 3)):
+        for gi, g in enumerate(split(ids, 5)):
             jobs.append(("single", pool.submit(run_tlc_export, ctx, f"single{gi}", "TestifyMockGen",
                                                cfg_text("TestifyMock_quick.cfg", Classes="<- GenClasses"),
                                                files={"TestifyMockGen.tla": gen_module(g)}, timeout=600)))
